@@ -661,6 +661,11 @@ class DocutilsRenderer(RendererProtocol):
                 else:
                     # insert as Text to decrease the verbosity of the output
                     node += nodes.Text(value)
+            if node.astext() != text and node.astext() == text.strip("\n"):
+                # pygments strips leading/trailing newlines, restore them
+                if text.startswith("\n") and text.strip("\n"):
+                    node.insert(0, nodes.Text(text[: len(text) - len(text.lstrip("\n"))]))
+                node += nodes.Text(text[len(text.rstrip("\n")) :])
 
         if source is not None:
             node.source = source
